@@ -1,4 +1,5 @@
 import ZV.Model.C33
+import ZV.Model.C33Struct
 /-! line protocol for C33.
     encode+decode:  `c33 <type> <value…>`      → `<abstract JSON the model's encoder builds>;<decode result>`
     decode only:    `c33 <type>-dec <members…>` → `<decode result>`
@@ -67,6 +68,249 @@ def parseMember (s : String) : Option (Option ParamJSON) :=
 
 def showPoint (r : Res (Option Nat × Option Nat)) : String :=
   showRes (fun p => showBig p.1 ++ "/" ++ showBig p.2) r
+
+/-! ### structured types (`m-…` ops).  Abstract JSON: `{k=v,…}` keys sorted, `s:<hex>` strings (a `[]byte`
+    member is the string holding its base64 text), `n:<literal>` numbers, `b:true|false`, `null`.
+    Values in arguments: OID `1.2.3` | `nil`; bytes `<hex>` | `-` (empty, non-nil) | `nil`;
+    JSON scalars for the decode-only ops: `absent` | `null` | `s:<hex>` | `n:<literal>` | `b:true|false` | `other`. -/
+
+def showJV : JV → String
+  | .null => "null"
+  | .str s => "s:" ++ strHex s
+  | .num l => "n:" ++ String.ofList l
+  | .bool b => "b:" ++ (if b then "true" else "false")
+  | .other => "other"
+
+def showObj (ms : List (String × Option String)) : String :=
+  "{" ++ ",".intercalate (ms.filterMap (fun (k, v) => v.map (fun x => k ++ "=" ++ x))) ++ "}"
+
+/-- outer `none`: malformed argument; inner `none`: member absent -/
+def parseJV (s : String) : Option (Option JV) :=
+  if s == "absent" then some none
+  else if s == "null" then some (some .null)
+  else if s == "other" then some (some .other)
+  else if s == "b:true" then some (some (.bool true))
+  else if s == "b:false" then some (some (.bool false))
+  else if s.startsWith "s:" then (hexStr (s.drop 2).toString).map (fun x => some (.str x))
+  else if s.startsWith "n:" then some (some (.num (s.drop 2).toString.toList))
+  else none
+
+def parseJV1 (s : String) : Option JV :=
+  match parseJV s with
+  | some (some j) => some j
+  | _ => none
+
+def parseOID (s : String) : Option (List Int) :=
+  if s == "nil" then some [] else (s.splitOn ".").mapM parseInt
+
+def showOID (o : List Int) : String :=
+  if o.isEmpty then "nil" else ".".intercalate (o.map toString)
+
+def parseOptBytes (s : String) : Option (Option Bytes) :=
+  if s == "nil" then some none else (ofHex s).map some
+
+def showOptBytes : Option Bytes → String
+  | none => "nil"
+  | some b => toHex b
+
+/-- a nested cryptoParameter object of the ECPoint model -/
+def showParamObj (p : ParamJSON) : String :=
+  showObj [("length", some ("n:" ++ toString p.length)),
+           ("value", some (match p.value with | none => "null" | some b => "s:" ++ strHex (b64Encode b)))]
+
+def showPointObj (p : PointJSON) : String :=
+  showObj [("x", p.x.map showParamObj), ("y", p.y.map showParamObj)]
+
+def showPrivObj (p : PrivJSON) : String :=
+  showObj [("length", p.length.map showJV), ("value", p.value.map showJV)]
+
+def parsePoint (s : String) : Option (Option (Option Nat × Option Nat)) :=
+  if s == "nil" then some none
+  else
+    match s.splitOn "/" with
+    | [x, y] =>
+      match parseBig x, parseBig y with
+      | some x, some y => some (some (x, y))
+      | _, _ => none
+    | _ => none
+
+def parsePriv (s : String) : Option (Option (Option Bytes × Int)) :=
+  if s == "nil" then some none
+  else
+    match s.splitOn ":" with
+    | [v, l] =>
+      match parseOptBytes v, parseInt l with
+      | some v, some l => some (some (v, l))
+      | _, _ => none
+    | _ => none
+
+def showPointVal : Option (Option Nat × Option Nat) → String
+  | none => "nil"
+  | some p => showBig p.1 ++ "/" ++ showBig p.2
+
+def showPrivVal : Option (Option Bytes × Int) → String
+  | none => "nil"
+  | some p => showOptBytes p.1 ++ ":" ++ toString p.2
+
+def showEcdh (v : EcdhVal) : String :=
+  toString v.curve ++ " " ++ showPointVal v.server_public ++ " " ++ showPrivVal v.server_private ++ " " ++
+    showPointVal v.client_public ++ " " ++ showPrivVal v.client_private
+
+def showDS (r : Res (UInt8 × UInt8 × Bytes)) : String :=
+  showRes (fun t => toString t.1.toNat ++ "/" ++ toString t.2.1.toNat ++ "/" ++ toHex t.2.2) r
+
+def showOIDNat (o : List Nat) : String := showOID (o.map Int.ofNat)
+
+def handleStruct (args : List String) : String :=
+  match args with
+  | ["m-auxoid", o] =>
+    match parseOID o with
+    | some o => "s:" ++ strHex (auxOIDMarshal o) ++ ";" ++ showRes showOIDNat (auxOIDUnmarshal (.str (auxOIDMarshal o)))
+    | none => "bad-op"
+  | ["m-auxoid-dec", j] =>
+    match parseJV1 j with
+    | some j => showRes showOIDNat (auxOIDUnmarshal j)
+    | none => "bad-op"
+  | ["m-fingerprint", b] =>
+    match parseOptBytes b with
+    | some f => "s:" ++ strHex (fingerprintMarshal f) ++ ";" ++ showRes toHex (fingerprintUnmarshal (.str (fingerprintMarshal f)))
+    | none => "bad-op"
+  | ["m-fingerprint-dec", j] =>
+    match parseJV1 j with
+    | some j => showRes toHex (fingerprintUnmarshal j)
+    | none => "bad-op"
+  | ["m-sha256", b] =>
+    match ofHex b with
+    | some h =>
+      if h.length = 32 then "s:" ++ strHex (sha256HashMarshal h) ++ ";" ++ showRes toHex (sha256HashUnmarshal (.str (sha256HashMarshal h)))
+      else "bad-op"
+    | none => "bad-op"
+  | ["m-sha256-dec", j] =>
+    match parseJV1 j with
+    | some j => showRes toHex (sha256HashUnmarshal j)
+    | none => "bad-op"
+  | ["m-ds", h, s, sig] =>
+    match h.toNat?, s.toNat?, parseOptBytes sig with
+    | some h, some s, some sig =>
+      if h < 256 ∧ s < 256 then
+        match dsMarshal (UInt8.ofNat h) (UInt8.ofNat s) sig with
+        | .ok t => "s:" ++ strHex t ++ ";" ++ showDS (dsUnmarshal (.str t))
+        | .err => "err"
+        | .panic => "panic"
+      else "bad-op"
+    | _, _, _ => "bad-op"
+  | ["m-ds-dec", j] =>
+    match parseJV1 j with
+    | some j => showDS (dsUnmarshal j)
+    | none => "bad-op"
+  | ["m-atv", t, v] =>
+    match parseOID t, hexStr v with
+    | some t, some v =>
+      let j := atvMarshal t v
+      showObj [("type", j.type.map showJV), ("value", j.value.map showJV)] ++ ";" ++
+        showRes (fun (p : List Int × Str) => showOID p.1 ++ "/" ++ strHex p.2) (atvUnmarshal j)
+    | _, _ => "bad-op"
+  | ["m-atv-dec", t, v] =>
+    match parseJV t, parseJV v with
+    | some t, some v => showRes (fun (p : List Int × Str) => showOID p.1 ++ "/" ++ strHex p.2) (atvUnmarshal { type := t, value := v })
+    | _, _ => "bad-op"
+  | ["m-othername", t, v] =>
+    match parseOID t, parseOptBytes v with
+    | some t, some v =>
+      let j := otherNameMarshal t v
+      showObj [("id", j.id.map showJV), ("value", j.value.map showJV)] ++ ";" ++
+        showRes (fun (p : List Int × Option Bytes) => showOID p.1 ++ "/" ++ showOptBytes p.2) (otherNameUnmarshal j)
+    | _, _ => "bad-op"
+  | ["m-othername-dec", t, v] =>
+    match parseJV t, parseJV v with
+    | some t, some v =>
+      showRes (fun (p : List Int × Option Bytes) => showOID p.1 ++ "/" ++ showOptBytes p.2) (otherNameUnmarshal { id := t, value := v })
+    | _, _ => "bad-op"
+  | ["m-ext", t, c, v] =>
+    match parseOID t, parseOptBytes v with
+    | some t, some v =>
+      let j := extMarshal t (c == "1") v
+      showObj [("critical", j.critical.map showJV), ("id", j.id.map showJV), ("value", j.value.map showJV)] ++ ";" ++
+        showRes (fun (p : List Int × Bool × Option Bytes) => showOID p.1 ++ "/" ++ (if p.2.1 then "1" else "0") ++ "/" ++ showOptBytes p.2.2) (extUnmarshal j)
+    | _, _ => "bad-op"
+  | ["m-ext-dec", t, c, v] =>
+    match parseJV t, parseJV c, parseJV v with
+    | some t, some c, some v =>
+      showRes (fun (p : List Int × Bool × Option Bytes) => showOID p.1 ++ "/" ++ (if p.2.1 then "1" else "0") ++ "/" ++ showOptBytes p.2.2)
+        (extUnmarshal { id := t, critical := c, value := v })
+    | _, _, _ => "bad-op"
+  | "m-rsa" :: rest =>
+    let key : Option (Option (Option Nat × Option Int)) :=
+      match rest with
+      | ["nokey"] => some none
+      | [n, e] =>
+        match parseBig n, (if e == "nil" then some none else (parseInt e).map some) with
+        | some n, some e => some (some (n, e))
+        | _, _ => none
+      | _ => none
+    match key with
+    | none => "bad-op"
+    | some key =>
+      match rsaMarshal key with
+      | .ok j =>
+        showObj [("exponent", j.exponent.map showJV), ("length", j.length.map showJV), ("modulus", j.modulus.map showJV)] ++ ";" ++
+          showRes (fun (p : Nat × Int) => toHex (natBytes p.1) ++ "/" ++ toString p.2) (rsaUnmarshal j)
+      | .err => "err"
+      | .panic => "panic"
+  | ["m-rsa-dec", e, m, l] =>
+    match parseJV e, parseJV m, parseJV l with
+    | some e, some m, some l =>
+      showRes (fun (p : Nat × Int) => toHex (natBytes p.1) ++ "/" ++ toString p.2) (rsaUnmarshal { exponent := e, modulus := m, length := l })
+    | _, _, _ => "bad-op"
+  | ["m-rsaclient", l, p] =>
+    match l.toNat?, parseOptBytes p with
+    | some l, some p =>
+      if l < 65536 then
+        let j := rsaClientMarshal l p
+        showObj [("encrypted_pre_master_secret", j.pms.map showJV), ("length", j.length.map showJV)] ++ ";" ++
+          showRes (fun (r : Nat × Option Bytes) => toString r.1 ++ "/" ++ showOptBytes r.2) (rsaClientUnmarshal j)
+      else "bad-op"
+    | _, _ => "bad-op"
+  | ["m-rsaclient-dec", l, p] =>
+    match parseJV l, parseJV p with
+    | some l, some p => showRes (fun (r : Nat × Option Bytes) => toString r.1 ++ "/" ++ showOptBytes r.2) (rsaClientUnmarshal { length := l, pms := p })
+    | _, _ => "bad-op"
+  | ["m-subtreeip4", mp, ip, mk] =>
+    match ofHex ip, ofHex mk with
+    | some ip, some mk =>
+      if ip.length = 4 ∧ mk.length = 4 then
+        let j := subtreeIP4Marshal (mp == "1") ip mk
+        showObj [("begin", j.begin_.map showJV), ("cidr", j.cidr.map showJV), ("end", j.end_.map showJV), ("mask", j.mask.map showJV)] ++ ";" ++
+          showRes (fun (r : Bytes × Bytes) => toHex r.1 ++ "/" ++ toHex r.2) (subtreeIP4Unmarshal j)
+      else "bad-op"
+    | _, _ => "bad-op"
+  | ["m-subtreeip4-dec", c, b, e, m] =>
+    match parseJV c, parseJV b, parseJV e, parseJV m with
+    | some c, some b, some e, some m =>
+      -- IPv6 text is outside the model: refuse the line rather than agree by accident
+      if (match c with | some (.str t) => t.contains ':' | _ => false) then "bad-op"
+      else showRes (fun (r : Bytes × Bytes) => toHex r.1 ++ "/" ++ toHex r.2) (subtreeIP4Unmarshal { cidr := c, begin_ := b, end_ := e, mask := m })
+    | _, _, _, _ => "bad-op"
+  | ["m-keyshare", c] =>
+    match (if c == "nil" then some none else c.toNat?.map some) with
+    | some (some k) =>
+      if k < 65536 then
+        "{" ++ showNV (curveEncode k) ++ "};" ++ showNat (keyShareUnmarshal (keyShareMarshal (some k)))
+      else "bad-op"
+    | some none => "null;" ++ showNat (keyShareUnmarshal (keyShareMarshal none))
+    | none => "bad-op"
+  | ["m-ecdh", c, sp, spr, cp, cpr] =>
+    match c.toNat?, parsePoint sp, parsePriv spr, parsePoint cp, parsePriv cpr with
+    | some c, some sp, some spr, some cp, some cpr =>
+      if c < 65536 then
+        let j := ecdhMarshal { curve := c, server_public := sp, server_private := spr, client_public := cp, client_private := cpr }
+        showObj [("client_private", j.client_private.map showPrivObj), ("client_public", j.client_public.map showPointObj),
+                 ("curve_id", j.curve_id.map (fun n => showObj [("id", some ("n:" ++ toString n.id)), ("name", some ("s:" ++ strHex n.name))])),
+                 ("server_private", j.server_private.map showPrivObj), ("server_public", j.server_public.map showPointObj)] ++ ";" ++
+          showRes showEcdh (ecdhUnmarshal j)
+      else "bad-op"
+    | _, _, _, _, _ => "bad-op"
+  | _ => "bad-op"
 
 def handle (args : List String) : String :=
   match args with
@@ -160,6 +404,6 @@ def handle (args : List String) : String :=
       let j := dhEncode req opt
       ",".intercalate (j.map showParam) ++ ";ok " ++ "/".intercalate ((dhDecode j).map showBig)
     | _, _ => "bad-op"
-  | _ => "bad-op"
+  | _ => handleStruct args
 
 end ZV.C33
